@@ -270,7 +270,7 @@ def cases(tier):
 ASSUMPTIONS = ["M3/M5 meta-lemmas (paper) as in C07",
                "AXI-Lite / Wishbone partners protocol-legal as stated per case; AXILite2Wishbone proved for slaves that do not raise err (err handling is a listed known finding)",
                "AXILiteUpConverter proved for single-outstanding reads and W not before AW",
-               "not covered (tier 2): AXILite down-converters, AXI2AXILite, AXILite2AXI, AXI2Wishbone, Wishbone2AXI, AHB2Wishbone, SoCBusHandler.add_adapter"]
+               "AXI2AXILite, AXILite2AXI, AXI2Wishbone, Wishbone2AXI, AHB2Wishbone are under contract in C09_axi_bridges.py, SoCBusHandler.add_adapter in C09_add_adapter.py; Avalon bridges are not part of the property"]
 
 # ---------------------------------------------------------------------------------------------------------------------------
 # AXI-Lite down-converter: one master transaction -> `ratio` slave transactions (unselected write sub-words skipped), data assembled in
